@@ -463,11 +463,18 @@ def eval_fn(fn, m, argval):
 
 
 def check_digit_maps(chk, m):
-    hc, nb = m.fn("hexchar"), m.fn("nibble")
-    chk.note_fn(hc)
+    nb = m.fn("nibble")
+    hc = m.functions.get("hexchar") if m.has_fn("hexchar") else None
     chk.note_fn(nb)
     want = "0123456789abcdef"
-    for v in range(16):
+    if hc is None:
+        # the dump may produce its digits some other way (a table): H4.pair-order decides the printed characters for all
+        # 256 byte values whatever produces them
+        chk.ob("H3.hexchar", "hexchar", True, "no hexchar() helper in this tree: the printed digits are decided by H4.pair-order alone",
+               nb.loc, nb.name)
+    else:
+        chk.note_fn(hc)
+    for v in range(16 if hc is not None else 0):
         got = eval_fn(hc, m, v) & 0xff
         chk.ob("H3.hexchar", "hexchar(%d)" % v, got == ord(want[v]), "hexchar(%d) = %r, expected %r" % (v, chr(got), want[v]),
                hc.loc, hc.name)
@@ -477,8 +484,8 @@ def check_digit_maps(chk, m):
         got = got if got < (1 << 31) else got - (1 << 32)
         chk.ob("H3.nibble", "nibble(%r)" % ch, got == int(ch, 16), "nibble(%r) = %d, expected %d" % (ch, got, int(ch, 16)), nb.loc, nb.name)
     for v in range(16):
-        got = eval_fn(nb, m, eval_fn(hc, m, v))
-        chk.ob("H3.round-trip", "nibble(hexchar(%d))" % v, got == v, "nibble(hexchar(%d)) = %d" % (v, got), nb.loc, nb.name)
+        got = eval_fn(nb, m, eval_fn(hc, m, v) if hc is not None else ord(want[v]))
+        chk.ob("H3.round-trip", "nibble(hexchar(%d))" % v, got == v, "nibble(digit %d) = %d" % (v, got), nb.loc, nb.name)
 
 
 # ---------------------------------------------------------------------------------------------
@@ -541,6 +548,7 @@ def analyse_dumper(chk, m, fn, depth=0, top=True):
         pid = "%s path %s" % (fn.name, "->".join(b.lstrip("%") for b in p.blocks))[:150]
         # pair order: consecutive bytes from the current pointer
         okp = True
+        bad_pair = None
         k = 0
         for u in units:
             if u[0] != "pair":
@@ -548,23 +556,63 @@ def analyse_dumper(chk, m, fn, depth=0, top=True):
             e = u[1]
             a, b = strip_casts(e.args[2]), strip_casts(e.args[3])
 
-            def nib(x):
-                if x[0] == "call" and x[1] == "hexchar":
-                    y = strip_casts(x[2][0])
-                    if y[0] == "b" and y[1] in ("ashr", "lshr") and y[4][0] == "c" and y[4][2] == 4:
-                        return ("hi", strip_casts(y[3]))
-                    if y[0] == "b" and y[1] == "and" and y[4][0] == "c" and y[4][2] == 15:
-                        return ("lo", strip_casts(y[3]))
-                return None
-            na, nb_ = nib(a), nib(b)
+            # decided over all 256 byte values: the two characters printed for byte k are the hex digits of its high and low
+            # nibble (hexchar and any conversion on the way are evaluated as written, sign extension included)
             want_ptr = paths.mkptr(("arg", parg), k)
-            if not (na and nb_ and na[0] == "hi" and nb_[0] == "lo" and na[1][0] == "ld" and nb_[1][0] == "ld"
-                    and na[1][1] == want_ptr and nb_[1][1] == want_ptr and na[1][2] == 1):
+            byte_lds = set(x for arg in (e.args[2], e.args[3]) for x in paths.subexprs(arg)
+                           if x[0] == "ld" and ptr_parts(x[1])[0][0] != "g")
+            if any(x[1] != want_ptr or x[2] != 1 for x in byte_lds) or not byte_lds:
                 okp = False
+                bad_pair = bad_pair or "pair %d does not print byte %d" % (k, k)
+            else:
+                class Env(dict):
+                    def __contains__(self, x):
+                        if dict.__contains__(self, x):
+                            return True
+                        if x[0] == "call" and isinstance(x[1], str) and m.has_fn(x[1]) and x[1] in paths.pure_functions(m):
+                            self[x] = paths.eval_pure_call(m, x[1], [paths.eval_concrete(a_, self) for a_ in x[2]])
+                            return True
+                        if x[0] == "ld" and ptr_parts(x[1])[0][0] == "g":
+                            tv = paths.const_table_load(m, x, self)
+                            if tv is not None:
+                                self[x] = tv
+                                return True
+                        return False
+                for v in range(256):
+                    env = Env({x: v for x in byte_lds})
+                    try:
+                        ca_, cb_ = paths.eval_concrete(e.args[2], env) & 0xff, paths.eval_concrete(e.args[3], env) & 0xff
+                    except paths.NoValue as nv:
+                        okp = None
+                        bad_pair = "pair argument not evaluable: %s" % fmt(nv.args[0])[:60]
+                        break
+                    if (ca_, cb_) != (ord("0123456789abcdef"[v >> 4]), ord("0123456789abcdef"[v & 15])):
+                        okp = False
+                        bad_pair = bad_pair or "byte 0x%02x is printed as %r%r" % (v, chr(ca_), chr(cb_))
+                        break
             k += 1
         if npairs and not any(u[0] == "call" for u in units):
-            chk.ob("H4.pair-order", pid, okp,
-                   "pair k prints hexchar(high nibble) then hexchar(low nibble) of byte k (zero-extended)", fn.loc, fn.name)
+            if okp is None:
+                chk.unknown("H4.pair-order", pid, bad_pair, fn.loc)
+            else:
+                chk.ob("H4.pair-order", pid, okp,
+                       "pair k prints the two lower-case hex digits of byte k, high nibble first, for all 256 byte values" if okp
+                       else "pair k must print the two hex digits of byte k: %s" % bad_pair, fn.loc, fn.name)
+        # a complete path whose conditions (functions of the size alone) hold for no size at all is infeasible: skip it
+        if not truncated:
+            anyfeas, decidable = False, True
+            for v in range(0, MAXSZ + 1):
+                env = {("arg", szarg): v}
+                try:
+                    if all(bool(eval_concrete(c, env)) == bool(taken) for c, taken, inst in p.conds):
+                        anyfeas = True
+                        break
+                except NoValue:
+                    decidable = False
+                    break
+            if decidable and not anyfeas:
+                n_checked -= 1
+                continue
         if top:
             run_ = 0
             ok_nl = True
